@@ -6,4 +6,6 @@ cd "$(dirname "$0")"
 export CARGO_NET_OFFLINE=true
 mkdir -p target evidence
 (cd harness && cargo build --profile checked)
+# AddressSanitizer build of the same program (C07 quick runs its workers in it)
+(cd harness && RUSTFLAGS="-Zsanitizer=address" cargo +nightly build --profile checked --target x86_64-unknown-linux-gnu --target-dir /verif/target/asan)
 echo "setup ok"
